@@ -162,6 +162,10 @@ pub const MAX_COMMIT_QUEUE_BYTES: usize = 64;
 pub const MAX_LOG_QUEUE_BYTES: i64 = 512;
 #[cfg(pdb_verif_scaled)]
 pub const MAX_LOG_FILES: usize = 1;
+/// Scaled build only: the smallest index has 2^4 pages instead of 2^16 (one page still holds 64 entries, so the
+/// 65th key of a page still makes the index grow); a full scan of an index or ref-count table is 16 page reads.
+#[cfg(pdb_verif_scaled)]
+pub const MIN_INDEX_BITS: u8 = 4;
 
 pub fn constants() -> Constants {
 	Constants {
@@ -197,13 +201,27 @@ mod touch {
 	loom::lazy_static! {
 		static ref CELLS: Vec<loom::sync::atomic::AtomicUsize> = (0..64).map(|_| loom::sync::atomic::AtomicUsize::new(0)).collect();
 	}
+	/// The harness may switch the shadow accesses off while only one thread exists (set-up phases).
+	static ENABLED: std::sync::atomic::AtomicBool = std::sync::atomic::AtomicBool::new(true);
+	pub fn set_enabled(on: bool) {
+		ENABLED.store(on, std::sync::atomic::Ordering::SeqCst);
+	}
 	pub fn read(id: usize) {
+		if !ENABLED.load(std::sync::atomic::Ordering::SeqCst) {
+			return
+		}
 		CELLS[id % 64].load(loom::sync::atomic::Ordering::SeqCst);
 	}
 	pub fn write(id: usize) {
+		if !ENABLED.load(std::sync::atomic::Ordering::SeqCst) {
+			return
+		}
 		CELLS[id % 64].fetch_add(1, loom::sync::atomic::Ordering::SeqCst);
 	}
 }
+
+#[cfg(feature = "loom")]
+pub use touch::set_enabled as set_touch_enabled;
 
 #[cfg(feature = "loom")]
 pub use touch::{read as touch_read, write as touch_write};
